@@ -269,8 +269,10 @@ func runSchedule(sched []schedEv) *verdict {
 		switch ev.E {
 		case "reg":
 			s := ev.P
-			apiRet[s] = make(chan struct{})
-			waitRet[s] = make(chan error, 1)
+			// the goroutine below works on its own channels: the maps belong to this goroutine only
+			myAPI, myWait := make(chan struct{}), make(chan error, 1)
+			apiRet[s], waitRet[s] = myAPI, myWait
+			isStreaming := streaming[s]
 			started := make(chan struct{})
 			w.wg.Add(1)
 			go func() {
@@ -284,18 +286,18 @@ func runSchedule(sched []schedEv) *verdict {
 				w.procOf[gid()] = s
 				w.mu.Unlock()
 				close(started)
-				if streaming[s] {
+				if isStreaming {
 					var set imap.SeqSet
 					set.AddNum(1)
 					cmd := w.cl.Fetch(set, &imap.FetchOptions{Flags: true})
-					close(apiRet[s])
+					close(myAPI)
 					_, err := cmd.Collect()
-					waitRet[s] <- err
+					myWait <- err
 					return
 				}
 				cmd := w.cl.Noop()
-				close(apiRet[s])
-				waitRet[s] <- cmd.Wait()
+				close(myAPI)
+				myWait <- cmd.Wait()
 			}()
 			<-started
 			a, ok := w.waitArrival(s, "begin.registered", watchdog)
@@ -530,6 +532,12 @@ func cmdSchedulesSupervised(path string, stride int, seed int64) {
 		if done {
 			break
 		}
+		// whose crash is it?  Only a goroutine that died inside go-imap is an observation about go-imap; anything
+		// else (the harness itself, the runtime) is an infrastructure problem and never a verdict
+		if !crashInLibrary(stderr.String()) {
+			out.Summary(map[string]interface{}{"infra_error": fmt.Sprintf("the harness process died while re-enacting schedule #%d, not inside go-imap: %.600s", at, strings.TrimSpace(stderr.String()))})
+			return
+		}
 		crashes++
 		first := stderr.String()
 		if i := strings.Index(first, "goroutine "); i > 0 {
@@ -546,6 +554,32 @@ func cmdSchedulesSupervised(path string, stride int, seed int64) {
 	}
 	out.Summary(map[string]interface{}{"behaviours": total["behaviours"], "generated": total["generated"], "steps": total["steps"],
 		"nontrivial": total["nontrivial"], "samples": samples, "crashes": crashes})
+}
+
+// crashInLibrary: the goroutine that brought the process down (first stack after the last "panic:" /
+// "fatal error:" line) has a go-imap frame.
+func crashInLibrary(stderr string) bool {
+	i := strings.LastIndex(stderr, "\npanic: ")
+	if j := strings.LastIndex(stderr, "\nfatal error: "); j > i {
+		i = j
+	}
+	if i < 0 {
+		if strings.HasPrefix(stderr, "panic: ") || strings.HasPrefix(stderr, "fatal error: ") {
+			i = 0
+		} else {
+			return false
+		}
+	}
+	rest := stderr[i:]
+	g := strings.Index(rest, "\ngoroutine ")
+	if g < 0 {
+		return false
+	}
+	stack := rest[g+1:]
+	if e := strings.Index(stack, "\n\n"); e > 0 {
+		stack = stack[:e]
+	}
+	return strings.Contains(stack, "github.com/emersion/go-imap/v2/")
 }
 
 func cmdSchedules(path string, stride int, seed int64, from int) {
